@@ -1175,7 +1175,6 @@ def check_case(res: Result, case: Case, cmds: list[dict], chunking: str, meta: d
 
     # ---- (c) and (d): RIB effects ----------------------------------------------------------
     snaps = [e['snap'] for e in case.events] + [case.final]
-    grouping = False
     for i, c in enumerate(cmds):
         before, after = snaps[i], snaps[i + 1]
         changed = {n for n in range(len(case.nbs)) if before[n] != after[n]}
@@ -1324,7 +1323,7 @@ def run_shard(desc):
             g['nlines'] = min(g['nlines'], 32)
         try:
             out = run_case(res, g, {'case': g})
-        except Exception as e:  # noqa: harness trouble is never a verdict
+        except Exception as e:  # harness trouble is never a verdict
             import traceback
 
             res.inconclusive.append('harness error %s: %s | %s' % (type(e).__name__, e, traceback.format_exc()[-500:].replace('\n', ' | ')))
